@@ -88,6 +88,15 @@ def extra_cases(prop, seed, thorough):
         for k, prof in enumerate(["struct-flat", "enum", "tree", "trait-params"]):
             for it in gen.gen_items(prof, seed * 1000 + 500 + k, 120 if not thorough else 1500):
                 out.append((it.meta["id"] + "~sp", gen.render(it, gen.speller(r))))
+    if prop in ("C15", "C16"):
+        # documented misuses injected into structured items (the classes of the fault-injection oracle): the model must
+        # report what the implementation reports, and neither may panic on them
+        for k, prof in enumerate(["struct-flat", "traits", "tree"]):
+            for it in gen.gen_items(prof, seed * 1000 + 520 + k, 150 if not thorough else 1500):
+                kind = r.choice(FAULTS)[0]
+                it2 = inject_fault(it, kind, r)
+                if it2 is not None:
+                    out.append((it.meta["id"] + "~" + kind, gen.render(it2, gen.speller(r) if r.random() < 0.3 else None)))
     return out
 
 
@@ -980,7 +989,12 @@ FAULTS = [
     ("tuple-named-no-name", "should specify corresponding field name of the Zq7"),
     ("untyped-nested-parent", "Field 'zq_t' should have type here"),
     ("update-into-existing", "Struct update syntax '..' is not applicable to 'into_existing' instructions"),
+    ("ghost-child-no-parents", r"re:Missing (#\[child_parents\(\.\.\.\)\]|'zq_base: \[Type Path\]') instruction for (type )?Zq8"),
 ]
+
+
+def fault_hit(text, msg):
+    return re.search(text[3:], msg) is not None if text.startswith("re:") else text in msg
 
 
 def inject_fault(it, kind, r):
@@ -1099,6 +1113,19 @@ def inject_fault(it, kind, r):
         c = "Zq9"
         nm = r.choice(["into_existing", "owned_into_existing", "ref_into_existing", "try_into_existing", "owned_try_into_existing"])
         it2.attrs.insert(r.randrange(len(it2.attrs) + 1), gen.Instr(nm, c + (", String" if "try" in nm else "") + " | " + r.choice(["", "attribute(inline), "]) + "..zq_base()", tag=("trait", c)))
+    elif kind == "ghost-child-no-parents":
+        # a struct-level ghost addressed to a nested struct (`path@name`) of a counterpart that declares no such nested
+        # struct — in an instruction of any flavour (dedicated, so that no default one shadows it), next to conversions of both flavours: the Into conversions it
+        # applies to cannot be written, whichever other conversions the counterpart has
+        if it2.kind != "struct":
+            return None
+        c = "Zq8"
+        fl = r.choice(["", "_owned", "_ref", "_ref"])
+        trs = r.choice([["into"], ["map"], ["owned_into", "ref_into"], ["ref_into", "owned_into"], ["try_into"], ["into", "from"],
+                        {"": ["owned_into"], "_owned": ["owned_into"], "_ref": ["ref_into"]}[fl]])
+        for nm in trs:
+            it2.attrs.insert(r.randrange(len(it2.attrs) + 1), gen.Instr(nm, c + (", String" if "try" in nm else ""), tag=("trait", c)))
+        it2.attrs.insert(r.randrange(len(it2.attrs) + 1), gen.Instr("ghosts" + fl, c + "| " + r.choice(["zq_base@zq_g: { 1 }", "zq_base.zq_in@zq_g: { 1 }, zq_top: { 2 }"]), tag=("ghosts", None)))
     elif kind == "repeat-param-conflict":
         # a repeat template that covers a parameter kind, followed by an instruction of the same name that sets that
         # parameter itself without `skip_repeat` (whether or not the template sets it)
@@ -1132,7 +1159,7 @@ def oracle_c15(cases, seed, thorough):
         removers = ("no-trait-instr", "dup-default-where", "dup-default-ghosts", "ghost-no-default", "child-no-parents")
         ks.sort(key=lambda k: 0 if k[0] in removers else 1)
         names2 = [k[0] for k in ks]
-        if len(ks) == 2 and "no-trait-instr" in names2 and any(x in ("dup-instr", "missing-err", "extra-err", "ghost-no-default", "child-no-parents", "repeat-param-conflict", "tuple-named-no-name", "untyped-nested-parent", "update-into-existing") for x in names2):
+        if len(ks) == 2 and "no-trait-instr" in names2 and any(x in ("dup-instr", "missing-err", "extra-err", "ghost-no-default", "child-no-parents", "repeat-param-conflict", "tuple-named-no-name", "untyped-nested-parent", "update-into-existing", "ghost-child-no-parents") for x in names2):
             ks = [k for k in ks if k[0] == "no-trait-instr"]
         if len(ks) == 2 and {ks[0][0], ks[1][0]} == {"dup-default-where", "unknown-cpart-where"}:
             ks = ks[:1]
@@ -1151,12 +1178,12 @@ def oracle_c15(cases, seed, thorough):
         o = outs2[i]
         if o[0] in ("LIBERR", "PANIC"):
             continue
-        if o[0] == "ERR" and len(o[1]) == 1 and not all(text in o[1][0] for _, text in ks):
+        if o[0] == "ERR" and len(o[1]) == 1 and not all(fault_hit(text, o[1][0]) for _, text in ks):
             continue  # a parse-stage o2o diagnostic (single message) pre-empts validation: known limitation, see KNOWN_FINDINGS C15-parse-stage
         n += 1
         msgs = o[1] if o[0] == "ERR" else ()
         for kind, text in ks:
-            if not any(text in m for m in msgs):
+            if not any(fault_hit(text, m) for m in msgs):
                 fails.append({"source": s2, "what": f"injected misuse `{kind}` is not reported (expected a diagnostic containing: {text})",
                               "detail": {"before_injection": s, "outcome": str(o)[:600]}, "shrinkable": False})
                 break
